@@ -20,8 +20,8 @@ Three layers, all executable and import-free:
   which silently drops a prefix of the other address family), emitted by `sorted(ID)`, the
   end-of-list bit is cleared on every operator and set on the last one, the value width is
   chosen by the `IOperationByte/ByteShort/ByteShortLong.encode` family, IPv6 prefixes are
-  written with `ceil(length/8)` bytes of the *address* whatever the offset,
-  `_encode_length` refuses 4095, `unpack_nlri` shifts the high nibble of an extended length by 16.
+  written with `ceil(length/8)` bytes of the *address* whatever the offset; the decoder keeps
+  components in a dict by ID (no order check) and stores operator bytes masked to their meaning.
   Traffic actions are the 8-byte extended communities of `traffic.py`.
 -/
 namespace Exa.Flow
@@ -559,7 +559,7 @@ def exaPackIds (sizeOf : Nat → Nat) (kept : List TComp) : List Nat → Except 
 /-- `_encode_length` -/
 def exaEncodeLength (n : Nat) : Except ExaErr Bytes :=
   if n < 240 then .ok [n]
-  else if n < 4095 then .ok [240 + n / 256, n % 256]
+  else if n ≤ 4095 then .ok [240 + n / 256, n % 256]
   else .error .tooLong
 
 /-- every component ID the code defines lies in 1..13, so `sorted(rules.keys())` is this list filtered -/
@@ -604,8 +604,13 @@ def toRule (v6 : Bool) (text : List TComp) : Rule :=
 /-- ExaBGP reads `ceil(len/8)` bytes after the offset, for any offset; `CIDR.decode` checks `len ≤ 128`. -/
 def exaP6 (len _off : Nat) : Option Nat := if len ≤ 128 then some len else none
 
-/-- `((length & 0x0F) << 16) + extra` -/
-def exaHi (n : Nat) : Nat := n * 65536
+/-- `((length & 0x0F) << FLOW_LENGTH_EXTENDED_SHIFT) + extra` -/
+def exaHi (n : Nat) : Nat := n * 256
+
+/-- what `_parse_operations` stores as `operations`: the bits that mean something for the operator
+    family (AND | lt gt eq, or AND | not match), the AND of the first operator cleared -/
+def exaStoredOp (numeric first : Bool) (op : Nat) : Nat :=
+  (if first then 0 else op / 64 % 2 * 64) + (if numeric then op % 8 else op % 4)
 
 inductive ExaDec where
   | raise                                   -- Notify escapes `unpack_nlri`
@@ -633,10 +638,12 @@ def exaDecode (v6 vpn : Bool) (bs : Bytes) : ExaDec :=
   match splitNlri exaHi bs with
   | .error _ => .raise
   | .ok (payload, rest) =>
-    let hasRd := vpn && decide (8 ≤ payload.length)
-    let body := if hasRd then payload.drop 8 else payload
-    match decodeComps v6 exaP6 (body.length + 1) body with
-    | .error _ => .invalid rest
-    | .ok cs => .ok (if hasRd then some (payload.take 8) else none) (regroup cs) rest
+    -- a flow-vpn payload too short for its route distinguisher: Notify inside `_parse_rules` -> INVALID
+    if vpn && decide (payload.length < 8) then .invalid rest
+    else
+      let body := if vpn then payload.drop 8 else payload
+      match decodeComps v6 exaP6 (body.length + 1) body with
+      | .error _ => .invalid rest
+      | .ok cs => .ok (if vpn then some (payload.take 8) else none) (regroup cs) rest
 
 end Exa.Flow
